@@ -262,7 +262,7 @@ const InnocuousPropertyValue = "zGoSafezInvalidPropertyValue"
 //   - ',', since it can be used to inject extra values into a property.
 //   - Runes which could be matched on CSS error recovery of a previously malformed token, such as '@'
 //     and ':'. See http://www.w3.org/TR/css3-syntax/#error-handling.
-var safeRegularPropertyValuePattern = regexp.MustCompile(`^(?:[*/]?(?:[0-9a-zA-Z+-.!#%_ \t]|$))*$`)
+var safeRegularPropertyValuePattern = regexp.MustCompile(`^(?:[*/]?(?:[0-9a-zA-Z+\-.!#%_ \t]|$))*$`)
 
 // safeEnumPropertyValuePattern matches strings that are safe to use as enumerated property values.
 // Specifically, it matches strings that contain only alphabetic and '-' runes.
